@@ -227,7 +227,7 @@ var verifSkeletons = []map[string]any{
 		"first": map[string]any{"type": "OrderedCollectionPage", "orderedItems": []any{map[string]any{"type": "Person", "id": "https://offline.invalid/a", "name": "a"}}}},
 }
 
-var verifDeviations = []any{nil, true, 0.0, -1.0, 1.5, 1e300, 18446744073709551616.0, "", "text", "\x1b[31m", "https://offline.invalid/x", "/relative", "http://[::1", "not a date", "text/plain", []any{}, []any{nil}, []any{"a", 1.0, map[string]any{}},
+var verifDeviations = []any{"<p>above</p><hr><p>below</p>", "a\n\n---\n\nb", nil, true, 0.0, -1.0, 1.5, 1e300, 18446744073709551616.0, "", "text", "\x1b[31m", "https://offline.invalid/x", "/relative", "http://[::1", "not a date", "text/plain", []any{}, []any{nil}, []any{"a", 1.0, map[string]any{}},
 	map[string]any{}, map[string]any{"type": "Note"}, map[string]any{"type": "Person"}, map[string]any{"type": "Person", "name": "no id"}, map[string]any{"id": "https://offline.invalid/z"},
 	map[string]any{"type": "Link"}, map[string]any{"type": "Link", "href": 7.0}, map[string]any{"type": "Collection", "items": "https://offline.invalid/single"}, map[string]any{"type": "Create"},
 	map[string]any{"type": "Note", "id": "https://other.invalid/foreign", "content": "foreign"},
